@@ -28,9 +28,15 @@ ASSUMPTIONS = [
     'A-atomic: manage_transfers and the functions it calls never yield (checked: yield log empty)',
 ]
 TRUSTED_BASE = ['pyvc engine', 'z3']
-NOT_DECIDED = ['the INSTANT invariant "processing uploads <= slots at every moment" across management cycles (a started upload becomes '
-               'INITIALIZING only at the first step of its task; excluded in practice by timing, which the technique does not assume)',
-               'eventual start of an eligible queued upload (liveness)']
+NOT_DECIDED = ['the INSTANT invariant "processing uploads <= slots at every moment" as a whole-history statement: what is discharged is its '
+               'inductive content per function (a started task takes its slot before its first other suspension, C05.*.takes-slot-first; one '
+               'scheduling pass per activation of the job, C05.management-job.one-pass; no second task for a transfer that holds one, '
+               'C05.slot-released.slot-free#*)',
+               'eventual start of an eligible queued upload as a liveness statement (fairness of the event loop is assumed): what is discharged '
+               'are the wake-up conditions it rests on - a cycle is requested on every state change (C05.cycle-on-change[*]), on every status '
+               'notification (C05.cycle-on-status[*]) and once the finished task has left its slot (C05.slot-released.then-cycle[upload])',
+               'a raised slot limit takes effect at the next cycle only: the application assigns to the settings object, no function of the '
+               'library runs, so no contract can request a cycle (with 0 -> 1 slots and no other event a queued upload waits)']
 
 STATE_NAMES = ['VIRGIN', 'QUEUED', 'INITIALIZING', 'INCOMPLETE', 'DOWNLOADING', 'UPLOADING', 'COMPLETE', 'FAILED', 'ABORTED', 'PAUSED']
 
